@@ -9,12 +9,15 @@ import (
 	"time"
 )
 
+// two cleanups of one invocation: one falsifies, the other one skips or is rejected
+var c02TwoCleanups = []Beh{BCleanupSkipCleanupPanic, BCleanupSkipCleanupFatal, BCleanupRejectCleanupPanic, BCleanupPanicCleanupSkip}
+
 func c02Alphabet(ctx string) []Beh {
 	switch ctx {
 	case "body", "custom", "custom2":
-		return append(append([]Beh{}, AllFalsifying...), BSkip, BSkipNow, BSkipf, BPass, BCleanupPass, BCleanupSkip)
+		return append(append(append([]Beh{}, AllFalsifying...), c02TwoCleanups...), BSkip, BSkipNow, BSkipf, BPass, BCleanupPass, BCleanupSkip)
 	default: // action, invariant: skipping there is C08's business
-		return append(append([]Beh{}, AllFalsifying[:len(AllFalsifying)-2]...), BPass, BCleanupPass)
+		return append(append(append([]Beh{}, AllFalsifying[:len(AllFalsifying)-2]...), c02TwoCleanups...), BPass, BCleanupPass)
 	}
 }
 
